@@ -792,7 +792,15 @@ impl Property for C17 {
             sc.projects[0].targets.push(t);
             extra.push("longrun".to_string());
         }
-        let mut args: Vec<String> = anti.iter().map(|t| t.1.clone()).collect();
+        // a member is requested directly, or only reached as a dependency of a requested target
+        let mut args: Vec<String> = vec![];
+        for m in &anti {
+            let dependents: Vec<Tid> = all.iter().filter(|t| !anti.contains(t) && model::closure(&sc, &[(*t).clone()]).contains(m) && !model::is_service_root(&sc, t)).cloned().collect();
+            let a = if !dependents.is_empty() && rng.chance(50) { rng.pick(&dependents).1.clone() } else { m.1.clone() };
+            if !args.contains(&a) {
+                args.push(a);
+            }
+        }
         rng.shuffle(&mut args);
         // also request dependents of members sometimes, so that members are reached as dependencies
         for t in &all {
